@@ -37,15 +37,15 @@ UNITS = [
       functions=["secp256k1_surjectionproof_serialize", "secp256k1_surjectionproof_serialized_size", "secp256k1_surjectionproof_n_total_inputs", "secp256k1_surjectionproof_n_used_inputs"],
       timeout=900, min_obl=251, unwind=34, note="every valid proof object and every capacity <= 9000"),
     U("C11.roundtrip", ["C11"], "harness/C11/serialize.c", "h_sjp_roundtrip", assumed=["memcpy", CB], replace=["memcpy", CB], defs=["EL_MEMCPY_FAST", "EL_MEMCPY_EXACT32"], tier="thorough",
-      functions=["secp256k1_surjectionproof_parse", "secp256k1_surjectionproof_serialize"], timeout=5400, min_obl=314, unwind=34,
+      functions=["secp256k1_surjectionproof_parse", "secp256k1_surjectionproof_serialize"], timeout=7200, min_obl=314, unwind=34,
       note="serialize(parse(b)) == b for every accepted b of length <= 9000 (1070 s measured)"),
     U("C11.compute_pubkeys_noring", ["C11", "C07"], "harness/C11/pubkeys.c", "h_sjp_pubkeys", replace=["secp256k1_gej_add_ge_var"], assumed=["secp256k1_gej_add_ge_var"],
       loop_contracts=pk_loop(False), functions=["secp256k1_surjection_compute_public_keys", "secp256k1_generator_load", "secp256k1_ge_neg", "secp256k1_gej_set_ge"],
-      timeout=3600, min_obl=847, unwind=258, tier="thorough", closed_by="loop contract over the n tags (engine-supplied, no /repo edit)",
+      timeout=7200, min_obl=847, unwind=258, tier="thorough", closed_by="loop contract over the n tags (engine-supplied, no /repo edit)",
       note="the verifier's call: ring_input_index = NULL"),
     U("C11.compute_pubkeys", ["C11", "C07"], "harness/C11/pubkeys.c", "h_sjp_pubkeys", replace=["secp256k1_gej_add_ge_var"], assumed=["secp256k1_gej_add_ge_var"], defs=["PK_RING"],
       loop_contracts=pk_loop(True), functions=["secp256k1_surjection_compute_public_keys", "secp256k1_generator_load", "secp256k1_ge_neg", "secp256k1_gej_set_ge"],
-      timeout=3600, min_obl=895, unwind=258, tier="thorough",
+      timeout=7200, min_obl=895, unwind=258, tier="thorough",
       closed_by="loop contract over the n tags (engine-supplied, no /repo edit): ring position = prefix bit count (harness table), decreases clause; harness table loops unwound",
       note="every n <= 256, every padding-free bitmap; pubkeys is an exact-size heap object so any write beyond n_used is a bounds violation"),
     U("C11.genmessage", ["C11", "C07"], "harness/C11/genmessage.c", "h_sjp_genmessage", replace=HASH, assumed=HASH,
